@@ -52,7 +52,7 @@ func buildStream(name string, cfg *config) (Stream, map[string]string, error) {
 		}
 		return newTokStream("tokcore", coreAlphabet, l), nil, nil
 	case name == "tokext":
-		l := 3
+		l := 2
 		if thorough {
 			l = 4
 		}
@@ -754,7 +754,7 @@ func parentMain(a lib.Args, cfg *config) {
 		}
 		to := inputTimeout
 		if name == "specials" {
-			to = 20 * time.Second
+			to = 8 * time.Second
 			if cfg.tier == "thorough" {
 				to = 120 * time.Second
 			}
@@ -907,8 +907,23 @@ func parentMain(a lib.Args, cfg *config) {
 						}
 					}
 				} else {
-					to = 4 * time.Second
-					shrink(cfg, f, to, 6)
+					// a timeout or kill seen under load must repeat alone with a generous limit, else it is dropped
+					e0 := entryIndex(f.Entry)
+					if e0 < 0 {
+						e0 = EEval
+					}
+					if f.Class != "POISONED" {
+						r0 := probe(cfg, []string{f.Input}, e0, 3*inputTimeout, f.Stream, true)
+						if r0[0].Class != f.Class {
+							f.Class = "UNCONFIRMED-" + f.Class
+							f.Entries[entryNames[e0]] = r0[0].Class
+							return
+						}
+					}
+					to = 3 * inputTimeout
+					if f.Class == ObsKilled {
+						shrink(cfg, f, to, 6)
+					}
 					e := entryIndex(f.Entry)
 					if e < 0 {
 						e = EEval
@@ -936,7 +951,7 @@ func parentMain(a lib.Args, cfg *config) {
 			}
 		}
 		sort.Strings(names)
-		ns := 40
+		ns := 24
 		if cfg.tier == "thorough" {
 			ns = 600
 		}
